@@ -109,7 +109,9 @@ type elConfig struct {
 	Max, MaxLine int
 }
 
-var elLines = []string{"", "a", "aaaaa", "bbbbb", "ccccc", "dddddd", "eeeeeeeeee"}
+// lines: empty, short, three of exactly the line limit, one whose two-byte character straddles the limit (the cut
+// falls inside it), one whose bytes beyond the limit are all UTF-8 continuation bytes (no character boundary follows)
+var elLines = []string{"", "a", "aaaaa", "bbbbb", "ccccc", "dddd\u00e9d", "eeeee\x80\x80\x80\x80\x80"}
 
 func c18Ops(cfg elConfig) []string {
 	var ops []string
